@@ -23,7 +23,8 @@ RULE = ("all ordered sequences of <=k distinct assertions (single-valued assignm
 ASSUMPTIONS = ["histories whose closure gives a single-valued field two different values are outside the statement "
                "(no defined field value); they are removed by the generator using the reference closure and counted",
                "list-valued fields are compared as sets (a user may append what was inferred before)"]
-BOUNDS = {"quick": {"transitive_seq_len": 4, "mixed_seq_len": 3}, "thorough": {"transitive_seq_len": 5, "mixed_seq_len": 4}}
+BOUNDS = {"quick": {"transitive_seq_len": 4, "mixed_seq_len": 3, "unit_seq_len": 3},
+          "thorough": {"transitive_seq_len": 5, "mixed_seq_len": 4, "unit_seq_len": 4}}
 CHUNK = 150
 RECYCLE_CHUNKS = 10
 BUDGET_S = {"quick": 900, "thorough": 6000}
@@ -48,9 +49,27 @@ def mixed_universe():
     return u
 
 
+NU = 3
+
+
+def unit_universe():
+    u = []
+    for f in ("part_of", "has_part", "directly_part_of"):
+        for i in range(NU):
+            for j in range(NU):
+                if i != j:
+                    u.append(("unit", i, j, "append", f))
+    u += [("unit", 0, 1, "assign", "part_of"), ("unit", 1, 2, "assign", "has_part"), ("unit", 2, 0, "assign", "directly_part_of")]
+    return u
+
+
 def cases(tier, seed):
     b = BOUNDS[tier]
     out = [("seq", ())]
+    uu = unit_universe()
+    for k in range(1, b["unit_seq_len"] + 1):
+        for s in itertools.permutations(uu, k):
+            out.append(("seq", s))
     tu = transitive_universe()
     for k in range(1, b["transitive_seq_len"] + 1):
         for s in itertools.permutations(tu, k):
@@ -78,7 +97,8 @@ class World:
         self.c = [O.VCompany(f"c{i}") for i in range(NC)]
         self.p = [O.VPerson(f"p{i}") for i in range(NP)]
         self.ceo = O.VCEO(self.p[0])
-        self.objs = self.c + self.p + [self.ceo]
+        self.u = [O.VUnit(f"u{i}") for i in range(NU)]
+        self.objs = self.c + self.p + [self.ceo] + self.u
         self.name = {id(o): repr(o) for o in self.objs}
 
     def person(self, p):
@@ -87,6 +107,8 @@ class World:
     def fact(self, a):
         """the asserted fact (s, field, t) of an assertion"""
         kind = a[0]
+        if kind == "unit":
+            return (self.u[a[1]], a[4], self.u[a[2]])
         if kind == "sub":
             return (self.c[a[1]], "sub_organization_of", self.c[a[2]])
         if kind == "works":
@@ -214,7 +236,7 @@ def run_case(case):
     if len(exp) > len(asserted):
         res.nontrivial_key = seq
     res.outcome_key = states[-1]
-    kinds = {a[0] + ":" + a[3] for a in seq}
+    kinds = {a[0] + ":" + a[3] + (":" + a[4] if a[0] == "unit" else "") for a in seq}
     res.features = list(kinds) + ["len:%d" % len(seq)]
     if any(s == t for s, f, t in exp):
         res.features.append("closure-has-self-loop(cycle)")
